@@ -31,6 +31,8 @@ UNITS = {
                   "fn_props": {**PRELUDE_FNS, "em_\\d+": ["C08", "C16"], "as_proc_def|as_call|as_jmps_loops": ["C08", "C14"],
                                "as_procedure": ["C08", "C16"], "as_int": ["C14", "C18"], "as_offset": ["C12", "C14"],
                                "as_byte_label|as_word_label|as_unsupported|as_offset_as_byte": ["C14"], "as_d[bw]_.*|as_set|advance_data_counter": ["C12", "C14"], "add_entry": ["C16"], "new|get_type": ["C08", "C14"]}},
+    "driver": {"tpl": "driver.rs", "props": ["C07", "C08", "C12", "C14", "C17", "C18", "C19"],
+               "fn_props": {**PRELUDE_FNS, "run": ["C08"], "user_interface": ["C17"], "get_type|get_source_map": ["C08", "C14"]}},
 }
 
 VERUS_TRUSTED = [
@@ -163,7 +165,15 @@ def run_unit(unit: str, dst: str, root: str):
             raise Undecided(f"assembler emission productions: only {n} found by shape (lost anchor)")
         tpl = tpl.replace("//@emitters", em)
     body = verus_extract.expand(tpl, ex)
+    bm = re.search(r"^//@broadcast (.*)$", body, re.M)
+    pre = pre.replace("/*@broadcast_extra*/", (", " + bm.group(1).strip()) if bm else "")
     text = pre + "\n" + body
+    # @LIT("..") in a contract: index K of that print literal in the table of this run
+    def lit_ix(m):
+        if m.group(1) not in ex.literals:
+            raise Undecided(f"lost anchor: print literal {m.group(1)} no longer printed by the functions of unit {unit}")
+        return str(ex.literals.index(m.group(1)))
+    text = re.sub(r"@LIT\((\"(?:[^\"\\]|\\.)*\"(?:\\n)?)\)", lit_ix, text)
     # literal table for the ghost output log (R2)
     if ex.literals:
         tbl = "\n".join(f"//   out K={k}: {lit}" for k, lit in enumerate(ex.literals))
